@@ -157,6 +157,7 @@ type LogQueryObs struct {
 }
 
 type Result struct {
+	bg         sync.WaitGroup // watcher goroutines of asynchronous requests issued by the fault plan
 	LogQueries []LogQueryObs
 	Plan       Plan
 	Ops        []*Op
@@ -722,7 +723,7 @@ func RunPlan(p Plan) *Result {
 					dir := fmt.Sprintf("/export-%d-%d", a.Idx, f.AfterMs)
 					_ = a.FS.MkdirAll(dir, 0o755)
 					if rs, err := a.NH.RequestSnapshot(shardID, dragonboat.SnapshotOption{Exported: true, ExportPath: dir}, time.Second); err == nil {
-						go func() { <-rs.ResultC(); rs.Release() }()
+						res.watchSnapshot(a, rs, time.Second, dir)
 						res.flag("snapshot-exported")
 					}
 				}
@@ -777,7 +778,7 @@ func RunPlan(p Plan) *Result {
 				hostMu.RLock()
 				if a.Up {
 					if rs, err := a.NH.RequestSnapshot(shardID, dragonboat.SnapshotOption{}, 500*time.Millisecond); err == nil {
-						go func() { <-rs.ResultC(); rs.Release() }()
+						res.watchSnapshot(a, rs, 500*time.Millisecond, "")
 					}
 				}
 				hostMu.RUnlock()
@@ -788,7 +789,7 @@ func RunPlan(p Plan) *Result {
 				if a.Up && countUp(c) > 1 {
 					name := fmt.Sprintf("%d/%d", shardID, a.Idx+1)
 					if rs, err := a.NH.RequestSnapshot(shardID, dragonboat.SnapshotOption{}, time.Second); err == nil {
-						go func() { <-rs.ResultC(); rs.Release() }()
+						res.watchSnapshot(a, rs, time.Second, "")
 						for dl := time.Now().Add(300 * time.Millisecond); time.Now().Before(dl) && !rec.SnapshotBusy(name); {
 							time.Sleep(200 * time.Microsecond)
 						}
@@ -860,6 +861,7 @@ func RunPlan(p Plan) *Result {
 	<-faultsDone
 	<-trigDone
 	staleWg.Wait()
+	res.bg.Wait()
 
 	// heal, restart everything, final reads through every host
 	c.Net.HealAll()
@@ -871,6 +873,61 @@ func RunPlan(p Plan) *Result {
 	res.finalReads(p)
 	res.finalAgreement()
 	return res
+}
+
+// watchSnapshot waits (on its own goroutine, joined by RunPlan before the oracles
+// run) for the terminal result of a RequestSnapshot: exactly one (C12); a Completed
+// result names the index of a snapshot that exists - recorded in the replica's log
+// store for a regular request, a directory in the export path for an exported one.
+func (res *Result) watchSnapshot(h *Host, rs *dragonboat.RequestState, timeout time.Duration, exportDir string) {
+	res.bg.Add(1)
+	go func() {
+		defer res.bg.Done()
+		r, code, _ := awaitResultX(rs, timeout+30*time.Second)
+		switch code {
+		case awaitNone:
+			res.violate("no-terminal-result", "RequestSnapshot on host %d (timeout %v, export %q) delivered no result within the deadline plus 40 s", h.Idx, timeout, exportDir)
+			return
+		case awaitExtra:
+			res.violate("two-results", "RequestSnapshot on host %d delivered a second result", h.Idx)
+			return
+		}
+		res.flag("snapshot-request-" + resultOutcome(r))
+		if r.Completed() && atomic.LoadInt32(&h.Mon.frozen) == 0 {
+			idx := r.SnapshotIndex()
+			if exportDir != "" {
+				found := false
+				if names, err := h.FS.List(exportDir); err == nil {
+					for _, n := range names {
+						if strings.Contains(n, fmt.Sprintf("%016X", idx)) {
+							found = true
+						}
+					}
+				}
+				if !found && atomic.LoadInt32(&h.Mon.frozen) == 0 {
+					res.violate("snapshot-request-completed-without-snapshot", "exported snapshot request on host %d completed with index %d but %s holds no such snapshot", h.Idx, idx, exportDir)
+				}
+			} else {
+				res.Rec.mu.Lock()
+				found := false
+				for _, c := range res.Rec.Created[fmt.Sprintf("%d/%d", shardID, h.Idx+1)] {
+					if c == idx {
+						found = true
+					}
+				}
+				res.Rec.mu.Unlock()
+				if res.Plan.Kind == KindOnDisk {
+					// (snapshots of on-disk state machines are recorded as dummy records, which the
+					// recorder does not list one by one: the newest record must have reached the index)
+					found = h.Mon.Get(shardID, uint64(h.Idx+1)).SnapIndex >= idx
+				}
+				if !found && atomic.LoadInt32(&h.Mon.frozen) == 0 {
+					res.violate("snapshot-request-completed-without-snapshot", "snapshot request on host %d completed with index %d but no snapshot with that index was recorded in the replica's log store", h.Idx, idx)
+				}
+			}
+		}
+		rs.Release()
+	}()
 }
 
 // auxRequest issues one auxiliary request of the public API and checks that it gets
